@@ -35,6 +35,7 @@ ASSUMPTIONS = [
     "wireguard mode's built-in DNS address 10.0.0.53:53 is exempt from the rules (virtual destination served by mitmproxy itself): excluded by precondition",
     "T1 shapes: <= 2 allow rules and <= 2 ignore rules; candidate availability patterns {address only, peername+address, address+Host, address+ClientHello SNI, address+client.sni, all five, none}",
     "parse_client_hello (kaitai) is summarised in the ClientTLSLayer contract by its outcomes (incomplete / a ClientHello / ValueError)",
+    "tls.get_client_hello (reassembly of the ClientHello from TLS records) has no T1 contract: with symbolic fragment contents the nested slice terms cost 20-70 s of solver time per obligation (tried in three encodings); it is checked in T2 against an RFC 8446 reference on *every* record fragmentation of synthetic handshake streams (<= 9 bytes, complete / truncated / followed by another message, with partial trailing records), on a real OpenSSL ClientHello re-cut into 2-4 records, and end-to-end",
 ]
 
 
@@ -527,6 +528,39 @@ def _client_hello(sni: str, alpn=("http/1.1",)) -> bytes:
     return out.read()
 
 
+def _refragment(record: bytes, lens):
+    """the handshake bytes of one TLS record re-cut into records with the given fragment lengths (the last takes the rest)"""
+    assert record[0] == 0x16
+    body, ver = record[5:], record[1:3]
+    out, pos = b"", 0
+    for n in list(lens) + [len(body)]:
+        frag = body[pos:pos + n]
+        pos += len(frag)
+        if frag:
+            out += b"\x16" + ver + len(frag).to_bytes(2, "big") + frag
+    return out
+
+
+def ref_client_hello(frags, complete_records=True):
+    """RFC 8446 §4/§5.1 reference: the handshake message is the concatenation of the record fragments; it is complete once
+    4 + uint24(length field) bytes are there."""
+    H = b"".join(frags)
+    if len(H) < 4:
+        return None
+    size = 4 + int.from_bytes(H[1:4], "big")
+    return H[:size] if len(H) >= size else None
+
+
+def _compositions(n):
+    """all ways to cut n bytes into non-empty consecutive fragments"""
+    if n == 0:
+        yield []
+        return
+    for first in range(1, n + 1):
+        for rest in _compositions(n - first):
+            yield [first] + rest
+
+
 def _mk(mode, ignore_hosts=(), allow_hosts=(), dst=None, **kw):
     from mitmproxy.addons import next_layer
     from props.addons_sansio import Proxy
@@ -549,6 +583,8 @@ def _e2e_cases():
     hello = _client_hello("example.com")
     cases.append(("transparent TLS, SNI", "transparent", [], ("93.184.216.34", 443), hello, "example.com"))
     cases.append(("regular CONNECT ip:443, TLS SNI", "regular", [b"CONNECT 93.184.216.34:443 HTTP/1.1\r\n\r\n"], None, hello, "example.com"))
+    for lens in ([1], [2], [3], [4], [1, 1, 1], [5, 40]):
+        cases.append((f"transparent TLS, SNI, hello in records {lens}+rest", "transparent", [], ("93.184.216.34", 443), _refragment(hello, lens), "example.com"))
     return cases
 
 
@@ -603,6 +639,51 @@ def bounded(tier, seed):
     b.case(("host", "server-first"), nontrivial=True)
     if _get_host(b"GET / HTTP/1.1\r\nHost: example.com\r\n\r\n", b"220 hello\r\n") != ("value", None):
         b.fail("host_header.ignored_when_server_spoke_first", {}, "")
+    # ---- (1b) ClientHello reassembly from TLS records: every fragmentation (RFC 8446 §5.1)
+    from mitmproxy.proxy.layers import tls as _tls
+    msgs = []
+    for body_len in (0, 1, 2, 5):
+        full = b"\x01" + body_len.to_bytes(3, "big") + bytes(range(0x41, 0x41 + body_len))
+        for stream in {full, full + b"\x02\x00", full[:-1] if body_len else full[:3], full[:2]}:
+            msgs.append(stream)
+    for stream in msgs:
+        for comp in _compositions(len(stream)):
+            for tail in (b"", b"\x16\x03", b"\x16\x03\x03\x00\x05ab"):
+                frags, pos = [], 0
+                for n in comp:
+                    frags.append(stream[pos:pos + n])
+                    pos += n
+                data = b"".join(b"\x16\x03\x03" + len(f).to_bytes(2, "big") + f for f in frags) + tail
+                b.case(("reassembly", stream, tuple(comp), tail), nontrivial=len(comp) > 1)
+                want = ref_client_hello(frags)
+                try:
+                    got = _tls.get_client_hello(data)
+                except Exception as e:
+                    b.fail("client_hello.reassembly_total", {"records": [f.hex() for f in frags], "tail": tail.hex()}, f"raised {type(e).__name__}: {e}")
+                    continue
+                if got != want:
+                    b.fail("client_hello.reassembled_for_every_record_fragmentation", {"records": [f.hex() for f in frags], "tail": tail.hex()},
+                           f"expected {want!r}, got {got!r}")
+    hello = _client_hello("example.com")
+    frag_sets = [[k] for k in (1, 2, 3, 4, 5, 6, 50, len(hello) - 6)] + [[1, 1], [1, 2], [2, 1], [1, 1, 1], [3, 3], [4, 1], [1, 100]]
+    if tier == "thorough":
+        frag_sets += [[k] for k in range(7, len(hello) - 6)]
+    from mitmproxy.addons import next_layer as _nl
+    from props import sansio as _sansio
+    for lens in frag_sets:
+        data = _refragment(hello, lens)
+        b.case(("sni-multirecord", tuple(lens)), nontrivial=True)
+        for n in sorted(set([len(data)] + ([len(data) - 1, 9, 6] if tier == "quick" else list(range(0, len(data)))))):
+            try:
+                ch = _nl.NextLayer._get_client_hello(_sansio.context_for(), data[:n])
+                r = ("value", ch.sni if ch is not None else None)
+            except _nl.NeedsMoreData:
+                r = ("more",)
+            want = ("value", "example.com") if n == len(data) else ("more",)
+            if n < 3:
+                continue          # the documented minimum to recognise TLS
+            if r != want:
+                b.fail("client_hello.sni_from_fragmented_hello", {"fragment_lengths": lens, "prefix_len": n, "total": len(data)}, f"expected {want!r}, got {r!r}")
     # ---- (2) end to end
     rule_sets = [("ignore.match", lambda d: dict(ignore_hosts=[_rx(d)]), True), ("ignore.nomatch", lambda d: dict(ignore_hosts=[r"nomatch\.invalid"]), False),
                  ("allow.match", lambda d: dict(allow_hosts=[_rx(d)]), False), ("allow.nomatch", lambda d: dict(allow_hosts=[r"nomatch\.invalid"]), True)]
